@@ -313,6 +313,88 @@ def judge_multi(inst):
     return viols, bool(hist)
 
 
+def judge_gen(inst):
+    """any number of files x chromosomes: every pairwise row, the BED records of every pair and chromosome, and the
+    multiway table of every chromosome against the definitions"""
+    files = inst["files"]
+    nf, chroms = len(files), ["chr1", "chr2", "chr3"][: len(files[0])]
+    d = _dir()
+    paths = []
+    for i, pats in enumerate(files):
+        paths.append(os.path.join(d, f"g{i}.vcf"))
+        build_vcf(paths[-1], pats, i, chroms=chroms)
+    viols = []
+
+    def V(clause, detail):
+        return {"clause": clause, "signature": "c11:" + clause, "detail": detail + f" (files x chromosomes {files})", "instance": inst}
+
+    try:
+        res = run_tool(paths, multiway=nf > 2)
+    except Exception as e:  # noqa
+        return [V("error", f"run_compare failed: {type(e).__name__}: {e}")], False
+    nt = False
+    rows = {(r["chromosome"], r["dataset_name0"], r["dataset_name1"]): r for r in res["pair"]}
+    if len(rows) != len(res["pair"]):
+        viols.append(V("pairwise-rows", f"duplicate rows in the pairwise table: {[(r['chromosome'], r['dataset_name0'], r['dataset_name1']) for r in res['pair']]}"))
+    want_rows = set()
+    for ci, c in enumerate(chroms):
+        for i in range(nf):
+            for j in range(i + 1, nf):
+                p0, p1 = files[i][ci], files[j][ci]
+                common, blocks, tot, per_block, bed = expected_pair(p0, p1)
+                key = (c, f"file{i}", f"file{j}")
+                want_rows.add(key)
+                row = rows.get(key)
+                if row is None:
+                    viols.append(V("pairwise-rows", f"no pairwise row for {key}"))
+                    continue
+                checks = [
+                    ("intersection_blocks", len(blocks)),
+                    ("covered_variants", tot["variants"]),
+                    ("all_assessed_pairs", tot["pairs"]),
+                    ("all_switches", tot["switches"]),
+                    ("all_switchflips", f"{tot['s']}/{tot['f']}"),
+                    ("blockwise_hamming", tot["hamming"]),
+                ]
+                for col, want in checks:
+                    if str(row[col]) != str(want):
+                        viols.append(V("pairwise:" + col, f"{key}: {col} = {row[col]}, definition gives {want} for {p0} vs {p1}"))
+                if per_block:
+                    mx = max(len(b["idx"]) for b in per_block)
+                    cands = [b for b in per_block if len(b["idx"]) == mx]
+                    lpos = [int(t[4]) for t in res["longest"] if (t[3], t[0], t[1]) == key]
+                    if not any(lpos == [50 + 30 * x for x in b["idx"]] and int(row["largestblock_switches"]) == b["switches"] and int(row["largestblock_hamming"]) == b["hamming"] for b in cands):
+                        viols.append(V("largest-block", f"{key}: longest-block rows at {lpos} / switches {row['largestblock_switches']} / Hamming {row['largestblock_hamming']} match no maximal block of {p0} vs {p1}"))
+                gbed = sorted((int(t[1]), int(t[2])) for t in res["bed"] if t[0] == c and t[3] == f"file{i}<-->file{j}")
+                if gbed != bed:
+                    viols.append(V("bed", f"{key}: BED {gbed}, switch-encoding differences at {bed}"))
+                nt = nt or tot["switches"] > 0
+        if nf > 2:
+            ps = [f[ci] for f in files]
+            common, joint = blocks_of(ps, nf)
+            hist = {}
+            for b in joint.values():
+                if len(b) < 2:
+                    continue
+                encs = [senc([int(p[i][1]) for i in b]) for p in ps]
+                for j in range(len(b) - 1):
+                    s_ = tuple(e[j] for e in encs)
+                    s_ = min(s_, tuple(1 - x for x in s_))
+                    hist[s_] = hist.get(s_, 0) + 1
+            names = [f"file{i}" for i in range(nf)]
+            want = {("{" + ",".join(n for n, x in zip(names, s_) if x == 0) + "}", "{" + ",".join(n for n, x in zip(names, s_) if x == 1) + "}"): cnt for s_, cnt in hist.items()}
+            got = {(t[2], t[3]): int(t[4]) for t in res["multi"] if t[1] == c}
+            if got != want:
+                viols.append(V("multiway", f"{c}: multiway counts {got}, definition gives {want}"))
+    extra_rows = set(rows) - want_rows
+    if extra_rows:
+        viols.append(V("pairwise-rows", f"unexpected pairwise rows {sorted(extra_rows)}"))
+    stray = [t for t in res["bed"] if t[0] not in chroms]
+    if stray:
+        viols.append(V("bed", f"BED records on unknown chromosomes: {stray}"))
+    return viols, nt
+
+
 # ---------------------------------------------------------------- polyploid
 def judge_poly(inst):
     ploidy, p0, p1 = inst["ploidy"], inst["p"][0], inst["p"][1]
@@ -510,6 +592,26 @@ def space(tier):
             for b in group:
                 for c in group if (T or group is m2) else group[::2]:
                     yield {"kind": "multi", "p": [list(a), list(b), list(c)]}
+    # three files, one chromosome, pairwise rows and BED of every pair as well; the third file may be homozygous / unphased
+    g3 = [s for s in itertools.product(KINDS[1:], repeat=3) if canonical(s)]
+    g3c = [s for s in itertools.product(KINDS + ["h"], repeat=3) if canonical(s) and ("h" in s or "u" in s)]
+    for a in g3[:: 1 if T else 2]:
+        for b in g3[:: 1 if T else 3]:
+            for c in g3c:
+                yield {"kind": "gen", "files": [[list(a)], [list(b)], [list(c)]]}
+    # two files, two / three chromosomes (per-chromosome state: BED records, block statistics)
+    c2 = [(g3[0], g3[0]), (g3[0], g3[1]), (g3[0], g3[3]), (g3[1], g3[2]), (("u", "A01", "h"), ("A01", "A01", "A01"))]
+    for a in g3:
+        for b in g3:
+            for x, y in c2:
+                yield {"kind": "gen", "files": [[list(a), list(x)], [list(b), list(y)]]}
+                if T or (g3.index(a) + g3.index(b)) % 4 == 0:
+                    yield {"kind": "gen", "files": [[list(x), list(a), list(y)], [list(y), list(b), list(y)]]}
+    # three files, two chromosomes
+    for a in g3[::2]:
+        for b in g3[:: 1 if T else 4]:
+            for x, y in c2:
+                yield {"kind": "gen", "files": [[list(a), list(x)], [list(b), list(y)], [list(y), list(a)]]}
     # polyploid, function level (compare_block): every first phasing up to haplotype order x every second phasing
     for ploidy, n in ((3, 2), (3, 3), (3, 4), (4, 2), (4, 3)) + (((3, 5), (4, 4)) if T else ()):
         arr = []
@@ -554,6 +656,8 @@ def run_one(inst):
         viols, nt = judge_invariance(inst)
     elif k == "multi":
         viols, nt = judge_multi(inst)
+    elif k == "gen":
+        viols, nt = judge_gen(inst)
     elif k == "polyfn":
         viols, cnt, nt = judge_polyfn(inst)
         return Result(n=cnt, nontrivial=nt, violations=viols[:3], outcome=(k, bool(viols)))
